@@ -289,8 +289,9 @@ int _vnacal_new_add_common(vnacal_new_add_arguments_t vnaa)
     /* map from b_matrix index to vnm_m_matrix index */
     int m_cell_map[MAX(1, MIN(b_cells, full_m_rows * full_m_columns))];
 
-    /* map from s_matrix index to vnm_s_matrix index */
-    int s_cell_map[s_cells];
+    /* map from s_matrix index to vnm_s_matrix index (the dimensions
+       haven't been validated yet: keep the array bound positive) */
+    int s_cell_map[MAX(1, s_cells)];
 
     /* which VNA ports are connected to the standard */
     bool port_connected[full_s_ports];
